@@ -6,7 +6,7 @@ from common import hexs
 ID = "C07"
 DRIVER = "cluster"
 MODEL_FILES = ["Model/Base.v", "Model/Parse.v", "Model/Node.v", "Model/Pending.v", "Model/Oplog.v", "Model/Cluster.v", "Model/Election.v"]
-THEOREMS = ["C07_frame_terminates", "C07_frame_terminates_bound", "C07_frame_wake_progress", "C07_tick_frames_progress", "C07_frame_done_role", "C07_claims_without_eligibility", "C07_election_eval_rule", "C07_secondary_no_fanout", "C07_single_node_wins_at_once", "C07_sequential_formation_ok", "C07_formed3_ok", "C07_younger_node_wins_refuted", "C07_two_primaries_refuted", "C07_no_quiescence_refuted", "C07_no_quiescence_frames"]
+THEOREMS = ["C07_frame_terminates", "C07_frame_terminates_bound", "C07_frame_wake_progress", "C07_tick_frames_progress", "C07_frame_done_role", "C07_claims_without_eligibility", "C07_election_eval_rule", "C07_secondary_no_fanout", "C07_single_node_wins_at_once", "C07_sequential_formation_ok", "C07_formed3_ok", "C07_younger_node_wins_refuted", "C07_two_primaries_refuted", "C07_no_quiescence_refuted", "C07_no_quiescence_frames", "C07_two_nodes_form", "C07_two_nodes_form_any", "C07_two_nodes_agree", "C07_two_nodes_oldest_iff", "C07_two_nodes_form_asked_n2", "C07_two_nodes_pid_independent", "C07_quiescent_no_link_step", "C07_two_nodes_form_200_100"]
 STRENGTH = {t: "proof-unbounded" for t in THEOREMS}
 IMPL_ENV = {"NUN_ELECTION_TIMEOUT": "20"}
 RULE = ("clusters of 2-3 nodes with distinct start times, formed by join requests in every order; triggers: join, debug force-election on "
